@@ -19,6 +19,8 @@ type ruleSpec struct {
 	Expr    string   `json:"expr"`
 	Methods []string `json:"methods,omitempty"`
 	BT      bool     `json:"bt"`
+	// Dup: the rule lists its route twice (legal, if pointless)
+	Dup bool `json:"route_listed_twice,omitempty"`
 }
 
 type version []ruleSpec
@@ -49,6 +51,9 @@ type c06Case struct {
 var c06Exprs = []string{
 	"/a", "/a/b", "/a/:x", "/a/:x/b", "/a/*r", "/:x", "/:x/b", "/:x/:y", "/*r", "/b/:x/*r", "/ab", `/\:x`, "/a/",
 	"/a/*r/b", // invalid: '/' after a free wildcard
+	// another name for the wildcard of an expression of the pool (within one version the first spelling of a shape is used for all
+	// its rules, see genVersion), and ':' / '*' inside a segment, where they are ordinary characters
+	"/:z", "/a:b", "/a*c", "/ab:c/:x",
 }
 
 func exprValid(e string) bool { _, ok := core.ParseExpr(e); return ok }
@@ -80,6 +85,7 @@ func genVersion(rng *rand.Rand, src string, prev version) version {
 	btFor := map[string]bool{}
 	fix := func(v version) version {
 		// equal backtracking flag for rules sharing an expression (statement's precondition)
+		spelling := map[string]string{}
 		for i := range v {
 			sh := core.Shape(v[i].Expr)
 			if b, ok := btFor[sh]; ok {
@@ -87,11 +93,18 @@ func genVersion(rng *rand.Rand, src string, prev version) version {
 			} else {
 				btFor[sh] = v[i].BT
 			}
+			// one spelling (wildcard names) per expression within a version: differing names for one tree position are a
+			// third, undocumented reason for a rejection which the statement does not cover
+			if sp, ok := spelling[sh]; ok {
+				v[i].Expr = sp
+			} else {
+				spelling[sh] = v[i].Expr
+			}
 		}
 		return v
 	}
 	newRule := func(id int) ruleSpec {
-		return ruleSpec{ID: fmt.Sprintf("%s-r%d", src, id), Expr: c06Exprs[rng.IntN(len(c06Exprs))], Methods: c06MethodSets[rng.IntN(len(c06MethodSets))], BT: rng.IntN(2) == 0}
+		return ruleSpec{ID: fmt.Sprintf("%s-r%d", src, id), Expr: c06Exprs[rng.IntN(len(c06Exprs))], Methods: c06MethodSets[rng.IntN(len(c06MethodSets))], BT: rng.IntN(2) == 0, Dup: rng.IntN(10) == 0}
 	}
 	if prev == nil {
 		n := 1 + rng.IntN(5)
@@ -159,7 +172,11 @@ func genVersion(rng *rand.Rand, src string, prev version) version {
 func toRuleSet(src string, v version) *rconfig.RuleSet {
 	var rules []rconfig.Rule
 	for _, r := range v {
-		rules = append(rules, mkRule(r.ID, r.Expr, r.Methods, boolp(r.BT)))
+		rl := mkRule(r.ID, r.Expr, r.Methods, boolp(r.BT))
+		if r.Dup {
+			rl.Matcher.Routes = append(rl.Matcher.Routes, rl.Matcher.Routes[0])
+		}
+		rules = append(rules, rl)
 	}
 	return mkRuleSet(src, rules...)
 }
